@@ -80,6 +80,8 @@ def observe_shift(fx, np, props, direction, mode, tx, cxs, n, ovf='saturate', sc
         cl = [cxs[0]] if scalar else list(cxs)
         # what the result READS as (the value is what the property is about): only where every value is an exact double
         rb = [common.wdy(v) for v in np.asarray(Z.get_val(), dtype=float).ravel().tolist()] if int(Z.n_word) <= 52 else []
+        if rb and scalar:          # the scalar conversions of the result agree with its code as well
+            rb = rb + [common.wdy(float(Z)), common.wdy(float(np.asarray(Z()).ravel()[0])), common.wdy(float(np.asarray(Z.astype(float)).ravel()[0]))]
         return dict(row, z=fmt_of(Z), cx=[wint(c) for c in cl], ca=[wint(c) for c in common.codes_of(X)],
                     cz=[wint(c) for c in common.codes_of(Z)], v=[0] * len(cl), xa=fmt_of(X), rb=rb)
     except Exception as ex:
